@@ -1,14 +1,15 @@
 (* C01 -- Reads return exactly what the accepted writes imply.
    Statements only; proofs in Proofs/.  Specification: Spec/MapSpec.v. *)
 From WB Require Import Base.Str Base.Json Model.Key Model.Store Model.Match Model.Entry Model.Core
-  Spec.MapSpec Proofs.StoreFacts Proofs.TreeInv Proofs.CoreFacts Proofs.C01Proof.
+  Spec.MapSpec Proofs.StoreFacts Proofs.TreeInv Proofs.CoreFacts Proofs.LenFacts Proofs.C01Proof.
 
-(* one request: the invariant is kept, the map changes as the specification says for the answer
-   given, and the answer of a read is the one the specification prescribes *)
+(* one request: the invariants (tree shape; cached entry count = number of values) are kept, the map
+   changes as the specification says for the answer given, and the answer of a read -- get, cget, pget,
+   ls, pls and the entry count -- is the one the specification prescribes *)
 Theorem C01_step_refines :
-  forall s o, Inv s -> c01_op o -> import_ok o ->
+  forall s o, Inv s -> LenInv s -> c01_op o -> import_ok o ->
     o_res (snd (step s o)) <> RCrash ->
-    Inv (fst (step s o)) /\
+    Inv (fst (step s o)) /\ LenInv (fst (step s o)) /\
     write_effect (abs s) (abs (fst (step s o))) o (o_res (snd (step s o))) /\
     read_ok (abs s) o (o_res (snd (step s o))).
 Proof. exact step_refines. Qed.
@@ -21,6 +22,20 @@ Theorem C01_run_refines :
     spec_trace (abs init) ops (run init ops).
 Proof. exact run_refines_init. Qed.
 Print Assumptions C01_run_refines.
+
+(* the cached entry count is the number of stored values after ANY history of requests of any kind
+   (sessions, subscriptions and locks included), and that is the number of keys holding a value *)
+Theorem C01_len_is_count :
+  forall ops, len (final init ops) = count_values (data (final init ops)).
+Proof. exact len_is_count. Qed.
+Print Assumptions C01_len_is_count.
+
+Theorem C01_count_is_keys :
+  forall n : node entry, wfn n ->
+    exists keys, NoDup keys /\ (forall q, In q keys <-> lookup n q <> None) /\
+                 count_values n = N.of_nat (length keys).
+Proof. exact count_is_keys. Qed.
+Print Assumptions C01_count_is_keys.
 
 Theorem C01_initially_empty : forall q, abs init q = None.
 Proof. exact abs_init. Qed.
@@ -54,12 +69,13 @@ Print Assumptions C01_ls_exact.
 (* non-vacuity: a concrete history satisfies the hypotheses and exercises accepted and rejected writes *)
 Definition C01_example_ops : list op :=
   [OSet 1 [97;47;98] (JNum [49]) false; OCSet 2 [97;47;98] (JNum [50]) 5 false;
-   OCSet 2 [99] (JNum [50]) 0 false; OSet 1 [99] JNull false; OPDelete 1 [97;47;35]; OGet [97;47;98]; OLs None].
+   OCSet 2 [99] (JNum [50]) 0 false; OSet 1 [99] JNull false; OLen; OPLs (Some [63]);
+   OPDelete 1 [97;47;35]; OGet [97;47;98]; OLs None; OLen].
 
 Example C01_nonvacuous :
   Forall c01_op C01_example_ops /\ Forall import_ok C01_example_ops /\
   map o_res (run init C01_example_ops) =
-    [RUnit; RErr 18; RUnit; RErr 17; RKvs [([97;47;98], JNum [49])]; RErr 5; RNames [[99]]].
+    [RUnit; RErr 18; RUnit; RErr 17; RLen 2; RNames [[98]]; RKvs [([97;47;98], JNum [49])]; RErr 5; RNames [[99]]; RLen 1].
 Proof.
   split; [|split].
   - unfold C01_example_ops. repeat (apply Forall_cons; [exact I|]). apply Forall_nil.
